@@ -51,6 +51,18 @@ INFO = {
     "growth at top >= 2C with top mod 2C in [1, C-1] (the suite grows at top == 0 only)"),
  "r2-c13-leftright-read-decltype-auto": ("C13", "left_right::read returns decltype(auto): a functor returning a reference hands out a reference into the instance after the read guard is gone",
     "a read functor that returns (part of) the instance by reference, copied by the caller while the writer updates that instance"),
+ "r3-c05-vyukov-bounded-empty-check": ("C05", "vyukov_bounded_queue strong pop: emptiness re-check compares the cells the positions map to instead of the positions",
+    "exactly capacity push positions reserved and the oldest push still pending: strong pop reports 'empty' although completed pushes are in the queue"),
+ "r3-c07-ramalhete-rollback-wrong-idx": ("C07", "ramalhete_queue::push rollback resets pop_idx instead of push_idx of the discarded node",
+    "owning elements (unique_ptr) and two producers racing to append a node: the pre-stored element is destroyed and then enqueued again"),
+ "r3-c08-set-erase-single-find": ("C08", "harris_michael_list_based_set::erase(key) retries the mark CAS without re-running find and treats 'already marked' as success",
+    "two threads erasing the same present key: both return true"),
+ "r3-c14-seqlock-hoisted-wait": ("C14", "seqlock::load (single slot): the wait for a pending write is hoisted out of the retry loop",
+    "slots == 1, a retry that starts while the writer holds the lock: torn value accepted"),
+ "r3-c16-ramalhete-push-no-help": ("C16", "ramalhete_queue::push no longer helps to advance _tail when the tail node is full",
+    "a producer stopped between linking the new node and publishing it as _tail: every other push spins"),
+ "r3-c18-hp-acquire-marked-null-leak": ("C18", "hazard_pointer guard_ptr::acquire allocates a slot whenever the guard's pointer is null (instead of: owns no slot)",
+    "a guard that acquired a marked null pointer and is re-used: its slot leaks; K leaks exhaust a static pool"),
  "c18-he-last-era-on-throw": ("C18", "hazard_eras alloc_hazard_era records the new era before the allocation that may throw",
     "all K slots in use, one failed allocation, then another guard request in the same era shares a stale slot (no exception, unprotected)"),
 }
